@@ -10,6 +10,7 @@ require (
 	github.com/pierrec/lz4 v2.6.1+incompatible
 	github.com/vicanso/elton v1.4.2
 	github.com/vicanso/pike v0.0.0
+	gopkg.in/yaml.v2 v2.4.0
 )
 
 require (
@@ -69,7 +70,6 @@ require (
 	google.golang.org/grpc v1.23.0 // indirect
 	google.golang.org/protobuf v1.23.0 // indirect
 	gopkg.in/natefinch/lumberjack.v2 v2.0.0 // indirect
-	gopkg.in/yaml.v2 v2.4.0 // indirect
 )
 
 replace github.com/vicanso/pike => /repo
